@@ -413,6 +413,25 @@ fn grammar_agreement(
         // too long for the cause analysis: one class instead of an arbitrary symptom
         return vec![("agree:grammar:strict-ok-lenient-disagrees:not-attributed-long-input".to_string(), detail)];
     }
+    // several causes in one input, one of them not repairable: name the disagreement that is
+    // left after the repairable ones are gone (the symptom of the first difference would be
+    // an arbitrary one of them)
+    let full = apply_repairs(input, strict, &[0, 1, 2, 3]);
+    if full != input {
+        if let Ok((l2, e2)) = guarded(|| qg::parse_query_lenient(&full)) {
+            let residual = if !e2.is_empty() {
+                Some(format!("lenient-error:{}", lenient_error_class(&e2[0].message)))
+            } else if &l2 != strict {
+                Some(format!("ast-differs:{}", ast_diff_class(strict, &l2)))
+            } else {
+                None
+            };
+            if let Some(r) = residual {
+                detail["after_repairing_the_known_causes"] = json!(clip(full));
+                return vec![(format!("agree:grammar:strict-ok-{r}"), detail)];
+            }
+        }
+    }
     vec![(format!("agree:grammar:strict-ok-{symptom}"), detail)]
 }
 
@@ -1746,10 +1765,10 @@ fn main() {
     simple_finish(
         &ctx,
         rep,
-        "total: case = one generated string (classes: random UTF-8, lossy byte soup, metacharacter soup, valid queries, their mutations, every prefix of one, unbalanced quotes/brackets, splices, keyword/whitespace variants, long inputs up to 1 MB, nesting <= 200) fed - inside memory-capped worker processes, so that hangs, unbounded allocation and stack overflows are survivable and attributable - to grammar parse_query/parse_query_lenient and to 4 QueryParser configurations (strict + lenient); non-trivial = the string contains grammar metacharacters/keywords; distinct = input class x character-class skeleton (first 28). sem: case = one corpus (1-40 docs, 1-2 segments, every field type, typed fields INDEXED or INDEXED|FAST) with 10/25 abstract queries, each printed with random whitespace/escaping/quoting/case/redundant parentheses/boosts, parsed in disjunction and conjunction mode and compared (Count and DocSetCollector via the id fast field) with a naive evaluation on the model documents, failing queries are shrunk; non-trivial = accepted by both parsers with the expected match set; distinct = set of grammar features in the query. depth: child-process sweeps of 6 nesting shapes x 4 entry points on an 8 MB main-thread stack.",
+        "total: case = one generated string (classes: random UTF-8, lossy byte soup, metacharacter soup, valid queries, their mutations, every prefix of one, unbalanced quotes/brackets, splices, keyword/whitespace variants, long inputs up to 1 MB, nesting <= 200) fed - inside memory-capped worker processes, so that hangs, unbounded allocation and stack overflows are survivable and attributable - to grammar parse_query/parse_query_lenient and to 4 QueryParser configurations (strict + lenient); non-trivial = the string contains grammar metacharacters/keywords; distinct = input class x character-class skeleton (first 28). sem: case = one corpus (1-40 docs, 1-2 segments, every field type, typed fields INDEXED or INDEXED|FAST, plus one title-only document per subset of three focus words) with 10/25 abstract queries, each printed with random whitespace/escaping/quoting/case/redundant parentheses/boosts, parsed in disjunction and conjunction mode and compared (Count and DocSetCollector via the id fast field) with a naive evaluation on the model documents, failing queries are shrunk; non-trivial = accepted by both parsers with the expected match set; distinct = set of grammar features in the query. depth: child-process sweeps of 6 nesting shapes x 4 entry points on an 8 MB main-thread stack.",
         ctx.scale(500, 5_000),
         &[
-            "documented grammar = doc comment of tantivy::query::QueryParser; only forms it defines are generated in the semantic stream (NOT only as a synonym of '-' inside an occur list, as the grammar crate's own tests define it; field:* (exists) only at syntax-tree level and field:(group) only in the totality stream because QueryParser does not document them; a query made only of excluded clauses must be rejected with AllButQueryForbidden)",
+            "documented grammar = doc comment of tantivy::query::QueryParser; only forms it defines are generated in the semantic stream (NOT only as a synonym of '-' inside an occur list, as the grammar crate's own tests define it; AND/OR chains whose operands carry '-' or '+' follow the grammar crate's tests: inside a conjunction '-' excludes and '+' changes nothing, a conjunction made only of excluded operands - e.g. the '-y' of 'x OR -y' - matches nothing, '+' is never written on a lone OR alternative; field groups 'field:( expr )' give their field to every unfielded term below them, through boosts and parentheses, and are generated on non-default fields only; field:* (exists) only at syntax-tree level and field:(group) only in the totality stream because QueryParser does not document them; a query made only of excluded clauses must be rejected with AllButQueryForbidden)",
             "meaning-preserving noise = blanks/tabs/newlines between operands and after ':' (only blanks before ':'), a literal blank after AND/OR/NOT, bare words with backslash escapes or single/double quotes with redundant escapes, ASCII case changes on tokenized text, redundant parentheses, boosts",
             "strict and lenient QueryParser results are compared after undoing LogicalAst::simplify (same-occur child clauses spliced into the parent), which only the strict path applies",
             "QueryParser-level agreement is checked only on inputs where the two grammar-level parsers already agree, so one grammar disagreement is reported once; a grammar disagreement is named after its cause when rewriting that detail (blank after '[' of a set, blank before a closing range bracket, blank after NOT, blanks between adjacent operands) makes the parsers agree while the strict tree stays the same, otherwise after its first symptom",
